@@ -148,6 +148,10 @@ pub fn make_case(c: &CaseRef, fx: &Fixtures) -> Option<(String, Cfg, String)> {
             let (s, cfg, d) = raw_case(c.idx);
             Some((s, cfg, d))
         }
+        "exh2" => {
+            let (s, cfg, d) = exh2_case(c.idx);
+            Some((s, cfg, d))
+        }
         "imp" => {
             let (s, cfg) = imp_case(c.idx);
             Some((s, cfg, "import".into()))
@@ -189,6 +193,7 @@ pub fn universe_size(gen: &str, fx: &Fixtures) -> u64 {
         "nest" => nest_universe(),
         "tab" => tab_universe(),
         "raw" => raw_universe(),
+        "exh2" => exh2_universe(),
         "nl" => NL_U,
         "mal" => MAL_U,
         "mut" => MUT_U,
@@ -384,6 +389,7 @@ fn run_printer(prop: &str, tier: &str, seed: u64, outdir: &str, only: Option<(&'
         select("nest", nest_universe(), if thorough { u64::MAX } else { 8_000 }, seed, &mut cases);
         select("tab", tab_universe(), if thorough { 200_000 } else { 5_000 }, seed, &mut cases);
         select("raw", raw_universe(), if thorough { u64::MAX } else { 5_000 }, seed, &mut cases);
+        select("exh2", exh2_universe(), if thorough { u64::MAX } else { 40_000 }, seed, &mut cases);
         select("nl", NL_U, if thorough { 60_000 } else { 6_000 }, seed, &mut cases);
         select("mut", MUT_U, if thorough { 150_000 } else { 16_000 }, seed, &mut cases);
         select("fix", universe_size("fix", &fx), nfix, seed, &mut cases);
@@ -646,6 +652,7 @@ fn main() {
                 "nest" => "nest",
                 "tab" => "tab",
                 "raw" => "raw",
+                "exh2" => "exh2",
                 "nl" => "nl",
                 "mut" => "mut",
                 "corp" => "corp",
@@ -730,7 +737,7 @@ fn main() {
         // vh show <gen> <idx>: the source and configuration of a case
         "show" => {
             let fx = Fixtures::load(FIXTURE_ROOT, true);
-            let gen: &'static str = match args[2].as_str() { "fix" => "fix", "gram" => "gram", "exh" => "exh", "imp" => "imp", "nest" => "nest", "tab" => "tab", "raw" => "raw", "nl" => "nl", "mut" => "mut", "corp" => "corp", _ => "mal" };
+            let gen: &'static str = match args[2].as_str() { "fix" => "fix", "gram" => "gram", "exh" => "exh", "imp" => "imp", "nest" => "nest", "tab" => "tab", "raw" => "raw", "exh2" => "exh2", "nl" => "nl", "mut" => "mut", "corp" => "corp", _ => "mal" };
             match make_case(&CaseRef { gen, idx: args[3].parse().unwrap_or(0) }, &fx) {
                 Some((s, cfg, d)) => {
                     eprintln!("{:?} {}", cfg, d);
@@ -742,7 +749,7 @@ fn main() {
         // vh abortcase <prop> <gen> <idx> <outdir>: the input on which the process aborted, as an oracle failure
         "abortcase" => {
             let fx = Fixtures::load(FIXTURE_ROOT, true);
-            let gen: &'static str = match args[3].as_str() { "fix" => "fix", "gram" => "gram", "exh" => "exh", "imp" => "imp", "nest" => "nest", "tab" => "tab", "raw" => "raw", "nl" => "nl", "mut" => "mut", "corp" => "corp", _ => "mal" };
+            let gen: &'static str = match args[3].as_str() { "fix" => "fix", "gram" => "gram", "exh" => "exh", "imp" => "imp", "nest" => "nest", "tab" => "tab", "raw" => "raw", "exh2" => "exh2", "nl" => "nl", "mut" => "mut", "corp" => "corp", _ => "mal" };
             let idx: u64 = args[4].parse().unwrap_or(0);
             if let Some((src, cfg, _)) = make_case(&CaseRef { gen, idx }, &fx) {
                 let j = fail_json_pub(&args[2], gen, idx, &src, cfg, "abort", "the process aborted while formatting this input (allocation failure or abort(); not a panic that could be caught)", "");
